@@ -16,6 +16,7 @@ from ..core.fde import IndexOutOfRange, Obj, Raised, Tag, Undecided
 from ..core.findings import Report
 from ..core.loader import AnalysisError, Repo
 from . import c03
+from .solverworld import solver_self, solver_world
 from .graphnative import GRAPH, GraphWorld
 
 CONF = "cspuz/configuration.py"
@@ -190,18 +191,9 @@ def check_dispatch(repo: Repo, rep: Report) -> None:
     rep.rule("CFG-1", "explicit backend argument wins; None reads config.default_backend at call time; strings resolve by name; classes pass through")
     rep.saw(SOLVER)
     smod = repo.mod(SOLVER)
-    ev = fde.Evaluator()
-    genv: Dict[str, Any] = {}
-    for q, f in smod.funcs.items():
-        if "." not in q:
-            genv[q] = fde.FunctionValue(f, ev, genv)
     config = Obj(["Config"], default_backend="sugar", name="config")
-    genv["config"] = config
-    genv["backend"] = Tag("backend")
-    genv["ValueError"] = lambda *a: Tag("ValueError")
-    genv["warnings"] = Tag("warnings")
-    genv["warnings.warn"] = lambda *a, **k: None
-    genv["any"] = lambda xs: any(xs)
+    cw = solver_world(repo, pre_env={"config": config})
+    ev, genv = cw.ev, cw.genv
     made: List[str] = []
 
     def cls_of(t: Any) -> str:
@@ -251,7 +243,7 @@ def check_dispatch(repo: Repo, rep: Report) -> None:
             for _n, (cls, _e) in c03.ENTRY.items():
                 modname = "z3" if cls == "Z3Backend" else "sugar_like"
                 genv[f"backend.{modname}.{cls}"] = mk(cls)
-            selfo = Obj(["Solver"], variables=[], constraints=[], is_answer_key=[], name="self")
+            selfo = solver_self(cw, variables=[], constraints=[], is_answer_key=[], name="self")
             try:
                 ev.steps = 0
                 fde.FunctionValue(fn, ev, genv, self_obj=selfo)(arg) if arg is not None else fde.FunctionValue(fn, ev, genv, self_obj=selfo)()
